@@ -51,7 +51,7 @@ PROPS = {
         design_ref="DESIGN.md section 4, C02",
     ),
     "C05": S(
-        e.C05 + version.API + [slices.ctx678, e.ori_rules],
+        e.C05 + version.API + [slices.ctx678, e.ori_rules, glue.glue12],
         explanation="The per-call-site containment discipline behind 'extract never raises': every call in extract/extract_child/extract_iter is resolved and classified; calls that run third-party code "
                     "(unwrap_stackitem, FrameIterator stepping, contexts_active_in_frame, fill_context, elaborate_frame) must lie in a try whose handler catches Exception, does not re-raise or leave the engine loop, "
                     "and appends the exception to the list that becomes Stack.error; every pop/popleft/[0]/[-1] on the engine's queues must be dominated by a non-emptiness test (CFG must-dataflow); "
@@ -132,7 +132,7 @@ PROPS = {
         design_ref="DESIGN.md section 4, C13",
     ),
     "C16": S(
-        e.C16 + [e.eng5, e.eng2, e.eng34],
+        e.C16 + [e.eng5, e.eng2, e.eng34, glue.glue9],
         explanation="extract_outermost and extract_child consume the same generator function with (stackitem, fresh error list) and extract_outermost returns its first item; in extract_outermost's StopIteration handler every path raises "
                     "(the recorded error, an ExceptionGroup of them, or a new RuntimeError, by count); the package's only Frame(...) construction is preceded by the filter that reduces origin to a generator/coroutine/async generator or None; "
                     "better_origin falls back when the candidate is not weak-referenceable.",
